@@ -239,6 +239,9 @@ def bounded_histories(seed, n_obj, n_hist):
         for hnum in range(n_hist):
             kind = ex[0]
             recv = O.to_lib(ex, "float")
+            negated = kind == "Polygon" and hnum % 2 == 1  # every other polygon history starts from -polygon (same set, opposite normal)
+            if negated:
+                recv = -recv
             total = (Fr(0), Fr(0), Fr(0))
             steps = rng.randint(1, 6)
             hist = []
@@ -260,7 +263,9 @@ def bounded_histories(seed, n_obj, n_hist):
                 classes.add(klass)
                 fresh_exact = K.transform(ex, K.IDENTITY, total, 1)
                 fresh = O.to_lib(fresh_exact, "float")
-                case = dict(kind=kind, obj=[str(x)[:300] for x in ex[1:]], history=hist)
+                if negated:
+                    fresh = -fresh
+                case = dict(kind=kind, obj=[str(x)[:300] for x in ex[1:]], history=hist, negated=negated)
                 for name, o in (("receiver", recv), ("returned", ret)):
                     try:
                         ok_eq = (o == fresh) and (fresh == o)
@@ -268,6 +273,12 @@ def bounded_histories(seed, n_obj, n_hist):
                     except Exception as e:
                         fail(klass, "%s: == / hash raised %r" % (name, e), case)
                         continue
+                    if kind == "Polygon" and name == "receiver" and hasattr(o, "eq_with_normal"):
+                        try:
+                            if not (o.eq_with_normal(fresh) and fresh.eq_with_normal(o)):
+                                fail(klass, "receiver: the normal no longer agrees with that of the object freshly constructed at the translated position (eq_with_normal)", case)
+                        except Exception as e:
+                            fail(klass, "eq_with_normal raised %r" % (e,), case)
                     if not ok_eq:
                         fail(klass, "%s != object freshly constructed at the translated position" % name, case)
                     elif not ok_hash:
